@@ -5822,11 +5822,7 @@ class SQLCompiler(Compiled):
             # so we can use batch mode even with upsert behaviors.
             use_row_at_a_time = True
             downgraded = True
-        elif (
-            imv.has_upsert_bound_parameters
-            and not imv.embed_values_counter
-            and self._result_columns
-        ):
+        elif imv.has_upsert_bound_parameters and self._result_columns:
             # For upsert behaviors (ON CONFLICT DO UPDATE, etc.) with RETURNING
             # and parametrized bindparams in the SET clause, we must use
             # row-at-a-time. Batching multiple rows in a single statement
